@@ -8,13 +8,16 @@ VARIABLES cfg, queue, busy, done, order_done, phase
 vars == <<cfg, queue, busy, done, order_done, phase>>
 Orders == {<<0, 1, 2>>, <<0, 2, 1>>, <<1, 0, 2>>, <<1, 2, 0>>, <<2, 0, 1>>, <<2, 1, 0>>, <<0, 1>>, <<1, 0>>, <<2, 1>>}
 Mats == [1..3 -> [1..3 -> {1, 3}]]
-Cfgs3 == [n : {3}, order : Orders, res : {m \in Mats : \A k \in 1..3 : m[k][k] = 1}, own : {0, 1}, fail : {99, 0, 1, 2}]
+M3 == {m \in Mats : \A k \in 1..3 : m[k][k] = 1}
+Cfgs3 == [n : {3}, order : Orders, res : M3, own : {0, 1}, fail : {99}, fkind : {"rt"}, oos : {99}]
+         \cup [n : {3}, order : Orders, res : M3, own : {0, 1}, fail : {0, 1, 2}, fkind : {"rt", "lfnc"}, oos : {99}]
+         \cup [n : {3}, order : Orders, res : M3, own : {0}, fail : {99, 0}, fkind : {"rt"}, oos : {2}]      \* a line already out of service
 \* a wider family (10 lines, case list = all lines in index order or reversed) so that the pool's chunks (chunksize =
 \* ceil(cases / (4 * n_procs)), multiprocessing.Pool.map) hold several cases: loadings follow a pattern, one case may fail
 Pat(k, r) == [c \in 1..10 |-> [e \in 1..10 |-> IF c # e /\ ((c + e) % k) = r THEN 3 ELSE 1]]
 Up == [j \in 1..10 |-> j - 1]
 Down == [j \in 1..10 |-> 10 - j]
-Cfgs10 == [n : {10}, order : {Up, Down}, res : {Pat(2, 0), Pat(3, 1), Pat(5, 2)}, own : {0, 1}, fail : {99, 0, 1, 4, 8}]
+Cfgs10 == [n : {10}, order : {Up, Down}, res : {Pat(2, 0), Pat(3, 1), Pat(5, 2)}, own : {0, 1}, fail : {99, 0, 1, 4, 8}, fkind : {"rt"}, oos : {99, 3}]
 Cfgs == Cfgs3 \cup Cfgs10
 W == 1..NProcs
 \* multiprocessing.Pool.map hands the task list out in CHUNKS of ceil(cases / (4 * processes)) consecutive tasks; a worker
@@ -22,7 +25,8 @@ W == 1..NProcs
 ChunkSize(c) == (Len(c.order) + 4 * NProcs - 1) \div (4 * NProcs)
 Take(q, k) == IF Len(q) <= k THEN q ELSE SubSeq(q, 1, k)
 Drop(q, k) == IF Len(q) <= k THEN <<>> ELSE SubSeq(q, k + 1, Len(q))
-Init == /\ cfg \in Cfgs /\ queue = cfg.order /\ busy = [w \in W |-> <<>>] /\ done = {} /\ order_done = <<>> /\ phase = "run"
+\* the task list of the parallel driver holds the in-service elements of the case list only (contingency_parallel.py:101-104)
+Init == /\ cfg \in Cfgs /\ queue = SelectSeq(cfg.order, LAMBDA t : t # cfg.oos) /\ busy = [w \in W |-> <<>>] /\ done = {} /\ order_done = <<>> /\ phase = "run"
 Dispatch(w) == /\ phase = "run" /\ busy[w] = <<>> /\ queue # <<>>
                /\ busy' = [busy EXCEPT ![w] = Take(queue, ChunkSize(cfg))] /\ queue' = Drop(queue, ChunkSize(cfg))
                /\ UNCHANGED <<cfg, done, order_done, phase>>
@@ -33,13 +37,14 @@ Collect == /\ phase = "run" /\ queue = <<>> /\ \A w \in W : busy[w] = <<>>
            /\ phase' = "aggregated" /\ UNCHANGED <<cfg, queue, busy, done, order_done>>
 Next == (\E w \in W : Dispatch(w) \/ Complete(w)) \/ Collect
 Spec == Init /\ [][Next]_vars /\ WF_vars(Next)
+Stop == FALSE /\ UNCHANGED vars          \* NEXT of ContingencyInit.cfg: enumerate the configurations only
 \* the fold over collected results in TASK order (what Pool.map returns), written as a running maximum
 RECURSIVE FoldMax(_, _, _, _)
 FoldMax(c, e, k, acc) == IF k > Len(c.order) THEN acc
                          ELSE LET t == c.order[k]
-                                  v == IF t = c.fail \/ t = e THEN NaNv ELSE c.res[t + 1][e + 1]
+                                  v == IF t = c.fail \/ t = e \/ t = c.oos \/ e = c.oos THEN NaNv ELSE c.res[t + 1][e + 1]
                               IN FoldMax(c, e, k + 1, IF v > acc THEN v ELSE acc)
-C15_ScheduleIndependent == phase = "aggregated" => /\ done = Range(cfg.order)
+C15_ScheduleIndependent == phase = "aggregated" => /\ done = Range(cfg.order) \ {cfg.oos}
                                                    /\ \A e \in El(cfg) : FoldMax(cfg, e, 1, NaNv) = TrueMax(cfg, e)
 AllComplete == <>(phase = "aggregated")
 =============================================================================
